@@ -291,7 +291,9 @@ WireCfgs ==
              \cup {RulesCfg("trace", <<c>>, <<Fld("f")>>) : c \in {Cond(FF, "exists", "none", NoVal, <<>>), Cond(FF, ">=", "none", N(50), <<>>)}}
              \cup {DynCfg(<<Fld("f")>>, TRUE)}
         ELSE {})
-WireTraces == {[spans |-> << [f |-> v, g |-> Absent] >>, root |-> r] : v \in Nums, r \in (IF Big THEN {0, 1} ELSE {1})}
+\* a single span that is the root, or (quick bound: for one number only) a span whose root has not arrived
+WireTraces == {[spans |-> << [f |-> v, g |-> Absent] >>, root |-> 1] : v \in Nums}
+              \cup {[spans |-> << [f |-> v, g |-> Absent] >>, root |-> 0] : v \in (IF Big THEN Nums ELSE {N(50)})}
 WireVecs == {[cfg |-> c, trace |-> t] : c \in WireCfgs, t \in WireTraces}
 
 \* several spans: order, mixed paths, mixed wire types of the same or different numbers
@@ -433,7 +435,9 @@ DecoderFacts ==
   /\ Handled(vec.trace, RefEnc(vec.trace))
 
 ---------------------------------------------------------------------------
-(* What is dumped for the harness.                                         *)
+(* What is dumped for the harness: the vectors once (params.vecs, the     *)
+(* sequence VecSeq), per transition only the index of the vector, the     *)
+(* encoding (in the action label) and res.                                 *)
 Abs == [res |-> res]
 Hid == [vid |-> vid]
 ASSUME PrintT(ToJson([params |-> [vecs |-> VecSeq]]))
